@@ -52,15 +52,15 @@ package ro
 //@   ensures [broadcast-under-lock|C02,C10,C13] heldat(mu, elem.CompleteWithContext)
 
 //@ func (*publishSubjectImpl).SubscribeWithContext
-//@   props C01 C02 C03 C10 C13
+//@   props C01 C02 C03 C10 C11 C13 C14
 //@   binds subscriberCtx destination
-//@   ensures [one-critical-section|C02,C10,C13] count(lock.mu) == 1 && heldat(mu, sub.ANY) && heldat(mu, loop.ANY)
+//@   ensures [one-critical-section|C02,C10,C11,C13] count(lock.mu) == 1 && heldat(mu, sub.ANY) && heldat(mu, loop.ANY)
 //@   alias sub=NewSubscriber()
 //@   track call.NewSubscriber observers.* NewSubscriber().*
 //@   ensures [wraps-then-registers-when-open|C01,C03,C10] atlock(status) == 0 ==> trace(call.NewSubscriber(destination), observers.Store(_, res(call.NewSubscriber)), sub.Add(_))
 //@   ensures [late-subscriber-gets-stored-error|C10] atlock(status) == 1 ==> trace(call.NewSubscriber(destination), sub.ErrorWithContext(atlock(err).A, atlock(err).B))
 //@   ensures [late-subscriber-gets-completion|C10] atlock(status) == 2 ==> trace(call.NewSubscriber(destination), sub.CompleteWithContext(subscriberCtx))
-//@   ensures [registration-under-lock|C10,C13] heldat(mu, observers.Store)
+//@   ensures [registration-under-lock|C10,C11,C13] heldat(mu, observers.Store)
 //@   ensures [returns-the-gate|C01] result == res(call.NewSubscriber)
 //@   ensures [state-unchanged|C10] atunlock(status) == atlock(status)
 
@@ -125,15 +125,15 @@ package ro
 //@   ensures [broadcast-under-lock|C02,C10,C13] heldat(mu, elem.CompleteWithContext)
 
 //@ func (*behaviorSubjectImpl).SubscribeWithContext
-//@   props C01 C02 C03 C10 C13
+//@   props C01 C02 C03 C10 C11 C13 C14
 //@   binds subscriberCtx destination
-//@   ensures [one-critical-section|C02,C10,C13] count(lock.mu) == 1 && heldat(mu, sub.ANY) && heldat(mu, loop.ANY)
+//@   ensures [one-critical-section|C02,C10,C11,C13] count(lock.mu) == 1 && heldat(mu, sub.ANY) && heldat(mu, loop.ANY)
 //@   alias sub=NewSubscriber()
 //@   track call.NewSubscriber observers.* NewSubscriber().*
-//@   ensures [open-replays-latest-then-registers|C01,C02,C03,C10] atlock(status) == 0 ==> trace(call.NewSubscriber(destination), sub.NextWithContext(atlock(last).A, atlock(last).B), observers.Store(_, res(call.NewSubscriber)), sub.Add(_))
+//@   ensures [open-replays-latest-then-registers|C01,C02,C03,C10,C14] atlock(status) == 0 ==> trace(call.NewSubscriber(destination), sub.NextWithContext(atlock(last).A, atlock(last).B), observers.Store(_, res(call.NewSubscriber)), sub.Add(_))
 //@   ensures [late-subscriber-gets-stored-error|C10] atlock(status) == 1 ==> trace(call.NewSubscriber(destination), sub.ErrorWithContext(atlock(err).A, atlock(err).B))
 //@   ensures [late-subscriber-gets-completion|C10] atlock(status) == 2 ==> trace(call.NewSubscriber(destination), sub.CompleteWithContext(subscriberCtx))
-//@   ensures [registration-under-lock|C10,C13] heldat(mu, observers.Store)
+//@   ensures [registration-under-lock|C10,C11,C13] heldat(mu, observers.Store)
 //@   ensures [returns-the-gate|C01] result == res(call.NewSubscriber)
 //@   ensures [state-unchanged|C10] atunlock(status) == atlock(status)
 
@@ -197,16 +197,16 @@ package ro
 //@   ensures [broadcast-under-lock|C02,C10,C13] heldat(mu, elem.CompleteWithContext)
 
 //@ func (*asyncSubjectImpl).SubscribeWithContext
-//@   props C01 C02 C03 C10 C13
+//@   props C01 C02 C03 C10 C11 C13 C14
 //@   binds subscriberCtx destination
-//@   ensures [one-critical-section|C02,C10,C13] count(lock.mu) == 1 && heldat(mu, sub.ANY) && heldat(mu, loop.ANY)
+//@   ensures [one-critical-section|C02,C10,C11,C13] count(lock.mu) == 1 && heldat(mu, sub.ANY) && heldat(mu, loop.ANY)
 //@   alias sub=NewSubscriber()
 //@   track call.NewSubscriber observers.* NewSubscriber().*
 //@   ensures [wraps-then-registers-when-open|C01,C03,C10] atlock(status) == 0 ==> trace(call.NewSubscriber(destination), observers.Store(_, res(call.NewSubscriber)), sub.Add(_))
 //@   ensures [late-subscriber-gets-stored-error|C10] atlock(status) == 1 ==> trace(call.NewSubscriber(destination), sub.ErrorWithContext(atlock(err).A, atlock(err).B))
 //@   ensures [late-subscriber-gets-final-value-then-completion|C10] atlock(status) == 2 && atlock(hasValue) ==> trace(call.NewSubscriber(destination), sub.NextWithContext(atlock(value).A, atlock(value).B), sub.CompleteWithContext(subscriberCtx))
 //@   ensures [late-subscriber-of-empty-gets-completion|C10] atlock(status) == 2 && !atlock(hasValue) ==> trace(call.NewSubscriber(destination), sub.CompleteWithContext(subscriberCtx))
-//@   ensures [registration-under-lock|C10,C13] heldat(mu, observers.Store)
+//@   ensures [registration-under-lock|C10,C11,C13] heldat(mu, observers.Store)
 //@   ensures [returns-the-gate|C01] result == res(call.NewSubscriber)
 //@   ensures [state-unchanged|C10] atunlock(status) == atlock(status)
 
@@ -276,15 +276,15 @@ package ro
 //@   ensures [broadcast-under-lock|C02,C10,C13] heldat(mu, elem.CompleteWithContext)
 
 //@ func (*replaySubjectImpl).SubscribeWithContext
-//@   props C01 C02 C03 C10 C13
+//@   props C01 C02 C03 C10 C11 C13 C14
 //@   binds subscriberCtx destination
-//@   ensures [one-critical-section|C02,C10,C13] count(lock.mu) == 1 && heldat(mu, sub.ANY) && heldat(mu, loop.ANY)
+//@   ensures [one-critical-section|C02,C10,C11,C13] count(lock.mu) == 1 && heldat(mu, sub.ANY) && heldat(mu, loop.ANY)
 //@   alias sub=NewSubscriber()
 //@   track call.NewSubscriber observers.* NewSubscriber().* loop.*
-//@   ensures [open-replays-buffer-then-registers|C01,C02,C03,C10] atlock(status) == 0 ==> trace(call.NewSubscriber(destination), loop.L0, observers.Store(_, res(call.NewSubscriber)), sub.Add(_))
+//@   ensures [open-replays-buffer-then-registers|C01,C02,C03,C10,C14] atlock(status) == 0 ==> trace(call.NewSubscriber(destination), loop.L0, observers.Store(_, res(call.NewSubscriber)), sub.Add(_))
 //@   ensures [late-subscriber-gets-buffer-then-stored-error|C10] atlock(status) == 1 ==> trace(call.NewSubscriber(destination), loop.L0, sub.ErrorWithContext(atlock(err).A, atlock(err).B))
 //@   ensures [late-subscriber-gets-buffer-then-completion|C10] atlock(status) == 2 ==> trace(call.NewSubscriber(destination), loop.L0, sub.CompleteWithContext(subscriberCtx))
-//@   ensures [registration-under-lock|C10,C13] heldat(mu, observers.Store)
+//@   ensures [registration-under-lock|C10,C11,C13] heldat(mu, observers.Store)
 //@   ensures [returns-the-gate|C01] result == res(call.NewSubscriber)
 //@   ensures [state-unchanged|C10] atunlock(status) == atlock(status)
 
